@@ -93,6 +93,44 @@ class _P:
         if self.i >= len(s):
             self.err('unexpected end of file')
         c = s[self.i]
+        v = self._atom(locals_)
+        # field access: (import 'f').name, x.name
+        while True:
+            m = re.compile(r'\s*\.\s*([A-Za-z_]\w*)').match(s, self.i)
+            if not m:
+                return v
+            self.i = m.end()
+            obj = _force(v)
+            if not isinstance(obj, dict) or m.group(1) not in obj:
+                self.err(f'no field {m.group(1)}')
+            v = obj[m.group(1)]
+
+    def _atom(self, locals_):
+        s = self.s
+        c = s[self.i]
+        if c == '@' and self.i + 1 < len(s) and s[self.i + 1] in '\'"':
+            # verbatim string: no escapes, the quote is doubled
+            q = s[self.i + 1]
+            j = self.i + 2
+            out = []
+            while True:
+                if j >= len(s):
+                    self.err('unterminated verbatim string')
+                if s[j] == q:
+                    if j + 1 < len(s) and s[j + 1] == q:
+                        out.append(q)
+                        j += 2
+                        continue
+                    self.i = j + 1
+                    return ''.join(out)
+                out.append(s[j])
+                j += 1
+        m = re.compile(r"import\s*(?=['\"])").match(s, self.i)
+        if m:
+            self.i = m.end()
+            fn = self.string()
+            target = os.path.join(os.path.dirname(self.path), fn)
+            return _Lazy(lambda t=target: load_file(t))
         if c == '(':
             self.i += 1
             v = self.value(locals_)
@@ -234,7 +272,7 @@ class Params:
     def from_file(cls, path, *a, **k):
         return cls(load_file(str(path)))
 
-    def pop(self, key, default=KeyError):
+    def pop(self, key, default=KeyError, *a, **k):
         if key not in self._obj:
             if default is KeyError:
                 raise KeyError(key)
